@@ -240,6 +240,24 @@ func init() {
 					g.emit(mkA("round", wide(p, m), z, z, 0, "", fresh), "drop/round")
 					g.emit(mkA("quantize", wide(p+3, m), z, z, z.E+gap, "", fresh), "drop/quantize")
 					g.emit(mkA("quo", wide(p, m), z, finDec(false, bigInt(3), 0), 0, "", fresh), "drop/quo")
+					// a quotient at a precision beyond the table from a dividend more than 128 digits longer than the divisor
+					pq := []int{130, 140, 200}[g.R.Intn(3)]
+					dv := finDec(g.R.bool(), g.R.digits(g.R.between(1, 3)), g.R.between(-3, 3))
+					dd := finDec(g.R.bool(), g.R.digits(len(bigOfLimbs(dv.C).String())+gap+g.R.between(0, 8)), g.R.between(-3, 3))
+					g.emit(mkA("quo", wide(pq, m), dd, dv, 0, "", fresh), "long/quo")
+					// a product of two long factors (more than 512 bits) whose adjusted exponent is exactly MinExponent, or next to it
+					nx, ny := g.R.between(80, 110), g.R.between(80, 110)
+					fx, fy := g.R.digits(nx), g.R.digits(ny)
+					if g.R.bool() { // all nines: the product has nx+ny digits
+						fx = new(bigIntT).Sub(new(bigIntT).Exp(bigInt(10), bigInt(int64(nx)), nil), bigInt(1))
+						fy = new(bigIntT).Sub(new(bigIntT).Exp(bigInt(10), bigInt(int64(ny)), nil), bigInt(1))
+					}
+					emin := -g.R.between(10, 60)
+					ex := g.R.between(-200, -100)
+					// adjusted exponent of the product is ex+ey+nx+ny-1 or -2: aim at emin
+					ey := emin - ex - nx - ny + 1 + g.R.between(-1, 1)
+					cm := Ctx{P: []int{20, p, 300}[g.R.Intn(3)], Emin: emin, Emax: 1000, R: m}
+					g.emit(mkA("mul", cm, finDec(g.R.bool(), fx, ex), finDec(g.R.bool(), fy, ey), 0, "", fresh), "long/mul")
 					// padding by gap digits
 					s := finDec(g.R.bool(), g.R.digits(g.R.between(1, 4)), 0)
 					g.emit(mkA("quantize", wide(gap+8, m), s, s, -gap, "", fresh), "pad/quantize")
